@@ -10,7 +10,7 @@ echo "|---|---|---|---|"
 for d in seeded/*/; do
   name=$(basename $d); own=${name%%-*}
   if [ -n "$(git -C /repo status --porcelain)" ]; then echo "/repo not clean" >&2; exit 2; fi
-  git -C /repo apply "$d/patch.diff" || { echo "| $name | patch does not apply | | |"; continue; }
+  git -C /repo apply "/verif/$d/patch.diff" || { echo "| $name | patch does not apply | | |"; continue; }
   ids="$own"; [ "$MODE" = "all" ] && ids="$ALL"
   caught=""; key=""
   for id in $ids; do
